@@ -113,6 +113,27 @@ def corpus():
              for i, n in enumerate(names)]
     out.append({'txns': txns, 'homogeneous': True,
                 'filters': [[], [{'type': 'month', 'text': '2025-01', 'mode': 'include'}], [{'type': 'category', 'text': 'food', 'mode': 'include'}]]})
+    # merchants with many tags whose special tag sorts last / first (a cap or a re-ordering of the merchant's tag list)
+    for sp in ('transfer', 'investment', 'income', 'Transfer', 'INCOME'):
+        for n in (5, 6, 7, 12, 40):
+            tg = [f'a{i:02d}' for i in range(n)] + [sp] + (['zz'] if n % 2 else [])
+            txns = [{'a': 6400, 'tags': list(tg), 'm': 'Tagged', 'c': 'Money', 's': 'Moves', 'd': '2025-01-05'},
+                    {'a': -3200, 'tags': list(tg), 'm': 'Tagged', 'c': 'Money', 's': 'Moves', 'd': '2025-02-05'},
+                    {'a': 640, 'tags': ['food'], 'm': 'Cafe', 'c': 'Food', 's': 'Out', 'd': '2025-02-07'}]
+            out.append({'txns': txns, 'homogeneous': True,
+                        'filters': [[], [{'type': 'month', 'text': '2025-02', 'mode': 'include'}], [{'type': 'tag', 'text': sp, 'mode': 'exclude'}]]})
+    # the same filter flipped between include and exclude inside one session, and filter sets that differ only in mode
+    txns = [{'a': 640 * (i + 1), 'tags': ['food'] if i % 2 else ['gas'], 'm': m, 'c': c, 's': 'S', 'd': f'2025-0{1 + i % 3}-1{i}'}
+            for i, (m, c) in enumerate([('Acme', 'Food'), ('Bolt', 'Bills'), ('Cafe', 'Food'), ('Acme', 'Food'), ('Bolt', 'Bills'), ('Job', 'Money')])]
+    txns[5]['tags'] = ['income']
+    flips = []
+    for f in ({'type': 'month', 'text': '2025-01'}, {'type': 'tag', 'text': 'food'}, {'type': 'category', 'text': 'food'},
+              {'type': 'merchant', 'text': 'Acme'}, {'type': 'month', 'text': '2025-01..2025-02'}):
+        flips += [[dict(f, mode='include')], [dict(f, mode='exclude')], [dict(f, mode='include')]]
+    flips += [[{'type': 'month', 'text': '2025-01', 'mode': 'include'}, {'type': 'tag', 'text': 'food', 'mode': 'exclude'}],
+              [{'type': 'month', 'text': '2025-01', 'mode': 'exclude'}, {'type': 'tag', 'text': 'food', 'mode': 'include'}],
+              [{'type': 'month', 'text': '2025-01', 'mode': 'include'}, {'type': 'month', 'text': '2025-03', 'mode': 'include'}], []]
+    out.append({'txns': txns, 'homogeneous': True, 'filters': flips})
     # consecutive calls on special tags in one session, repeated tags, all six buckets at once
     txns = [{'a': -(i + 1) * 640, 'tags': [w], 'm': m, 'c': 'Money', 's': 'Moves', 'd': f'2025-0{1 + i % 3}-1{i}'}
             for i, (w, m) in enumerate([('income', 'Job'), ('income', 'Job'), ('transfer', 'Bank'), ('Transfer', 'Bank'),
@@ -190,9 +211,21 @@ def evaluate(cases, js_path, workdir):
     """Runs both sides. Returns per case a list of per-filter records with everything in ticks."""
     py = run_impl(IMPL, {'cases': cases, 'workdir': workdir}, timeout=1800)['results']
     items = [{'data': r['data'], 'filters': c['filters']} for c, r in zip(cases, py) if 'error' not in r]
-    js = iter(run_app(js_path, items))
+    # the same filter sets, each in an application instance of its own (for the cases that ask for it)
+    fresh_items, fresh_where = [], []
+    for ci, (c, r) in enumerate(zip(cases, py)):
+        if 'error' not in r and c.get('fresh'):
+            for fi, f in enumerate(c['filters']):
+                fresh_items.append({'data': r['data'], 'filters': [f]})
+                fresh_where.append((ci, fi))
+    allres = run_app(js_path, items + fresh_items)
+    fresh = {}
+    for (ci, fi), fr in zip(fresh_where, allres[len(items):]):
+        if isinstance(fr, list):
+            fresh[(ci, fi)] = set(fr[0]['visible'])
+    js = iter(allres[:len(items)])
     out = []
-    for c, r in zip(cases, py):
+    for ci, (c, r) in enumerate(zip(cases, py)):
         if 'error' in r:
             out.append({'error': 'python: ' + r['error']})
             continue
@@ -202,7 +235,7 @@ def evaluate(cases, js_path, workdir):
             continue
         ids = ids_of(c['txns'], r['data'])
         recs = []
-        for f, jr in zip(c['filters'], j):
+        for fi, (f, jr) in enumerate(zip(c['filters'], j)):
             vis_ids = set(jr['visible'])
             vis = [i in vis_ids for i in ids]
             cli = {k: 0 for k in BK}
@@ -217,11 +250,43 @@ def evaluate(cases, js_path, workdir):
             br = {'income': ticks(fv['income']), 'investment': ticks(fv['investment']), 'spending': ticks(fv['spending']),
                   'credits': ticks(fv['credits']), 'transfers': ticks(fv['transfers']), 'net': ticks(fv['net']), 'count': fv['count'],
                   'grand': ticks(jr['grandTotal'])}
-            recs.append({'filter': f, 'visible': vis, 'unknown_ids': sorted(vis_ids - {i for i in ids if i}), 'not_embedded': sum(1 for i in ids if i is None), 'cli': cli, 'browser': br,
+            extra = {'fresh_visible': [i in fresh[(ci, fi)] for i in ids]} if (ci, fi) in fresh else {}
+            recs.append({**extra, 'filter': f, 'visible': vis, 'unknown_ids': sorted(vis_ids - {i for i in ids if i}), 'not_embedded': sum(1 for i in ids if i is None), 'cli': cli, 'browser': br,
                          'inexact': inexact or any(v is None for v in br.values()),
                          'header': {k: ticks(v) for k, v in jr['header'].items()},
                          'cli_totals': {k: (ticks(v) if k != 'count' else v) for k, v in r['cli'].items()}})
         out.append({'recs': recs})
+    return out
+
+
+def expected_visible(case, flt):
+    """Which transactions a filter set shows, from the report's documented filter semantics (an exclude filter that matches
+    hides; include filters: OR within one type, AND across types), computed independently of the application."""
+    def hit(t, f):
+        x = f['text'].lower()
+        if f['type'] == 'month':
+            m = t['d'][:7]
+            if '..' in f['text']:
+                a, b = f['text'].split('..')
+                return a <= m <= b
+            return m == f['text']
+        if f['type'] == 'tag':
+            return any(g.lower() == x for g in (t['tags'] or []))
+        if f['type'] == 'category':
+            return t['c'].lower() == x
+        if f['type'] == 'merchant':
+            return t['m'].lower() == x
+        return None
+    out = []
+    for t in case['txns']:
+        if any(hit(t, f) for f in flt if f['mode'] == 'exclude'):
+            out.append(False)
+            continue
+        by = {}
+        for f in flt:
+            if f['mode'] == 'include':
+                by.setdefault(f['type'], []).append(f)
+        out.append(all(any(hit(t, f) for f in fs) for fs in by.values()))
     return out
 
 
@@ -236,6 +301,10 @@ def judge(case, rec):
     nvis = sum(rec['visible'])
     if b['count'] != nvis:
         bad.append(('count', False))
+    if 'fresh_visible' in rec and rec['fresh_visible'] != rec['visible']:
+        bad.append(('totals-depend-on-the-filters-applied-before', False))
+    if not rec.get('not_embedded') and rec['visible'] != expected_visible(case, rec['filter']):
+        bad.append(('filter-shows-other-transactions-than-it-names', False))
     if rec.get('not_embedded'):
         bad.append(('analysed-transactions-missing-from-the-embedded-data', False))
     if not rec['filter'] and nvis != len(case['txns']):
@@ -362,7 +431,7 @@ def check(run, tier, js_path):
         broken.append({'kind': 'hygiene', 'detail': res['hygiene']})
     rnd = random.Random(run.seed + 77)
     n = 120 if tier == 'quick' else 3000
-    cases = corpus() + [gen_case(rnd, i % 3 != 0) for i in range(n)]
+    cases = [dict(c, fresh=True) for c in corpus()] + [gen_case(rnd, i % 3 != 0) for i in range(n)]
     wd = os.path.join(WORK, 'C13app')
     os.makedirs(wd, exist_ok=True)
     try:
